@@ -474,7 +474,7 @@ func (e *Engine) netIntrinsic(st *State, name string, args []Value) ([]exit, boo
 			n = st.net.pos
 		}
 		return retExit(st, e.bv64(int64(n))), true
-	case "verifPeerPort":
+	case "verifPeerPort", "verifDialTarget":
 		return retExit(st, e.bv64(peerPort)), true
 	case "verifPeerRequests", "verifNetStray":
 		n, stray := e.bv64(0), e.bv64(0)
